@@ -656,6 +656,12 @@ operation is canceled outright and false is returned.
 */
 func (r *stack) transfer(dest *stack) (ok bool) {
 
+	// a stack cannot receive its own slices:
+	// the loop below would chase its own tail.
+	if dest == r {
+		return
+	}
+
 	// if a capacity was set, make sure
 	// the destination can handle it...
 	if dest.cap() > 0 {
